@@ -33,14 +33,14 @@ Proof.
     - cbn. rewrite Z.add_0_r. reflexivity.
     - rewrite loop_fold_cons. cbn [group_loop].
       assert (Hlen : i + 1 + Z.of_nat (length r) = i + Z.of_nat (length (m :: r))) by (cbn [length]; lia).
-      destruct (negb (m_type m =? 1)).
-      { rewrite IH, Hlen. reflexivity. }
+      destruct (m_type m =? 1); cbn [negb].
+      2:{ rewrite IH, Hlen. reflexivity. }
       destruct (find_way (m_ref m) ws) as [w|].
       2:{ rewrite IH, Hlen. reflexivity. }
       unfold way_line_string_at.
       destruct (line_string_at at_ (w_nodes w) (w_updates w)) as [line|]; [|reflexivity].
       rewrite Z_of_nat_eqb'.
-      destruct (negb (Nat.eqb (length line) (length (w_nodes w))));
+      destruct (Nat.eqb (length line) (length (w_nodes w))); cbn [negb];
         (destruct line as [|p line];
          [cbn [length Z.of_nat Z.eqb]; rewrite IH, Hlen; reflexivity|];
          replace (Z.of_nat (length (p :: line)) =? 0) with false by reflexivity;
